@@ -196,6 +196,14 @@ func ccCase(stream string, id int, h http.Header, age int64) hx.Case {
 
 func ccStream(g *hx.Gen, id int) hx.Case {
 	h := ccGenHeader(g)
+	if cc := h["Cache-Control"]; len(cc) > 1 && g.Chance(50) {
+		// purity: the result must depend on the argument alone. The parser is first called on a sibling map that
+		// shares the first Cache-Control line (seeded change C10-m6: results memoised under the first line)
+		_ = hx.Guard(func() []string {
+			caching.GetCacheControlDirectives(http.Header{"Cache-Control": {cc[0]}})
+			return nil
+		})
+	}
 	age := frPick64(g, []int64{-1, 0, 1, 4, 5, 6, 9, 10, 11, 59, 60, 61, 3599, 3600, 3601})
 	return ccCase("ccparse", id, h, age)
 }
